@@ -136,16 +136,16 @@ def modelled (parsers : List (String × String)) (listing : List DirEntry) : Boo
 
 /-- `ForceField(directory, name)`: the force field and its name; `none` = an exception -/
 def ffInit (nt : List (String × Nat)) (tab : List Entry) (parsers : List (String × String))
-    (directory : Option (String × List DirEntry)) (name : Option String) : Option (String × FF) := do
-  let ff ← match directory with
+    (directory : Option (String × List DirEntry)) (name : Option String) : Option (String × FF) :=
+  let ffo : Option FF := match directory with
     | none => some {}
-    | some (_, listing) => loadDir nt tab parsers listing
-  let nm := match name with
+    | some d => loadDir nt tab parsers d.2
+  let nm : Option String := match name with
     | some n => some n
     | none => directory.map fun d => basename d.1
-  match nm with
-  | none => none                       -- TypeError: neither directory nor name
-  | some n => some (n, ff)
+  match ffo, nm with
+  | some ff, some n => some (n, ff)
+  | _, _ => none                       -- an exception while reading / TypeError: neither directory nor name
 
 /-! ### the mapping directory (`vermouth.map_input.read_mapping_directory`)
 
@@ -170,15 +170,20 @@ def Tree.name : Tree → String
 def endsWith (ext name : String) : Bool := ext.toList.isSuffixOf name.toList
 
 mutual
-/-- pre-order list of the directories below (and including) a directory given by its children:
-each as (relative path, children) -/
-def walkDirs (path : String) (children : List Tree) : List (String × List Tree) :=
-  (path, children) :: walkChildren path children
-def walkChildren (path : String) : List Tree → List (String × List Tree)
+/-- the directories at and below one entry, pre-order, each as (relative path, children) -/
+def walkTree (path : String) : Tree → List (String × List Tree)
+  | .file _ _ => []
+  | .dir n ch => (path ++ n ++ "/", ch) :: walkList (path ++ n ++ "/") ch
+termination_by structural t => t
+def walkList (path : String) : List Tree → List (String × List Tree)
   | [] => []
-  | .file _ _ :: r => walkChildren path r
-  | .dir n ch :: r => walkDirs (path ++ n ++ "/") ch ++ walkChildren path r
+  | t :: r => walkTree path t ++ walkList path r
+termination_by structural l => l
 end
+
+/-- pre-order list of the directories below (and including) a directory given by its children -/
+def walkDirs (path : String) (children : List Tree) : List (String × List Tree) :=
+  (path, children) :: walkList path children
 
 /-- `Path(directory).glob('**/*' + ext)`: (relative path, entry) in the order pathlib yields them -/
 def globRec (ext : String) (children : List Tree) : List (String × Tree) :=
@@ -209,19 +214,23 @@ def flatten3 {V : Type} (d : List (Option String × List (Option String × List 
 /-- `read_mapping_directory`: `readMap` / `readMapping` give the keyed entries of one file in the
 iteration order of the nested dictionary the per-file reader returns (`none` = it raises); the value
 kept for a key is (path of the file, index of the entry in that file).  `none` = an exception. -/
+def mapStep (reader : List String → Option (List MKey))
+    (acc : List (Option String × List (Option String × List (RKey × (String × Nat)))))
+    (pe : String × Tree) : Option (List (Option String × List (Option String × List (RKey × (String × Nat))))) :=
+  match pe.2 with
+  | .dir _ _ => none                 -- open() of a directory
+  | .file _ lines =>
+    match reader lines with
+    | none => none
+    | some keys => some (combine acc ((keys.zipIdx).map fun (k, i) => (k, (pe.1, i))))
+
 def readMapDir (readMap readMapping : List String → Option (List MKey)) (children : List Tree) :
-    Option (List (MKey × (String × Nat))) := do
-  let step (reader : List String → Option (List MKey))
-      (acc : List (Option String × List (Option String × List (RKey × (String × Nat)))))
-      (pe : String × Tree) : Option (List (Option String × List (Option String × List (RKey × (String × Nat))))) :=
-    match pe.2 with
-    | .dir _ _ => none                 -- open() of a directory
-    | .file _ lines =>
-      match reader lines with
-      | none => none
-      | some keys => some (combine acc ((keys.zipIdx).map fun (k, i) => (k, (pe.1, i))))
-  let d1 ← foldOpt (step readMap) [] (globRec ".map" children)
-  let d2 ← foldOpt (step readMapping) d1 (globRec ".mapping" children)
-  pure (flatten3 d2)
+    Option (List (MKey × (String × Nat))) :=
+  match foldOpt (mapStep readMap) [] (globRec ".map" children) with
+  | none => none
+  | some d1 =>
+    match foldOpt (mapStep readMapping) d1 (globRec ".mapping" children) with
+    | none => none
+    | some d2 => some (flatten3 d2)
 
 end C13.Dir
